@@ -37,6 +37,20 @@ CHECKS = {
             "enumerated (tens of thousands of delivery histories per quick run), including sequence-number wrap at every offset; full end-to-end runs repeat the relation "
             "with real cipher suites. Exhaustive only for the short streams enumerated.",
             TRUST, "3/C05"),
+    "C06": ("exploration", "strict independent output oracle (own pcapng reader, frame parser with checksum verification, TCP reassembler) applied to outputs of a record-length x carrying-packet grid and of arbitrary/hostile inputs under random option sets",
+            "Every output produced is read by an independent strict reader; the n x k grid checks the re-split rule (at most k segments, concatenation = record), the any-input "
+            "part covers decryptable, partly and not decryptable captures, foreign traffic, damage, empty captures, legacy pcap and all option combinations.",
+            "trusted: vlib.outparse (validated at setup on malformed and well-formed files)", "3/C06"),
+    "C07": ("exploration", "offline provenance oracle over the output with the sender's ground truth: every exported packet is attributed to its record / datagram by stream offset and its addresses, orientation and microsecond timestamp are checked against the input packets that carried it",
+            "Random MAC/IP/port values including degenerate ones, all segmentation classes plus duplicated/reordered deliveries, six timestamp styles stressing float rounding; "
+            "15 000+ exported segments attributed per quick run.",
+            TRUST, "3/C07"),
+    "C08": ("fault_enumeration", "every prefix of a capture is run through the real program and compared with the export of the full capture (prefix + monotonicity per conversation and direction), on generated scenes and on the repository's real OpenSSL captures",
+            "All cut positions 0..N of each capture are enumerated (sampled to 120 positions only for captures longer than 120 packets in the quick tier).",
+            TRUST, "3/C08"),
+    "C09": ("exploration", "metamorphic runtime oracle: byte equality of the output file across ~25-60 deliveries of the same secret set (permutations, line ends, decorations, hex case, DSB placement/splitting, file+DSB, DSB only without -s from several working directories)",
+            "Each scene's baseline delivery is compared byte for byte with every alternative delivery; permutations are exhaustive up to 5 lines.",
+            TRUST, "3/C09"),
     "C11": ("exploration", "runtime monitor comparing the real checksum routines with an independent RFC 1071 verifier on solved-for boundary packets + metamorphic end-to-end oracle (-c with corrupted packets == no -c with them removed)",
             "The real calculate_checksum_tcp/udp run on real Packet objects whose payloads are solved so that the unfolded sum hits every carry/fold boundary and "
             "the 0x0000/0xFFFF checksum values; the end-to-end relation of the property is checked byte for byte on TLS and QUIC scenes with arbitrary corrupted subsets.",
